@@ -416,12 +416,61 @@ fn read_and_log(sh: &Shared, c: &mut Conn, id: u32, big: bool) {
     }
 }
 
+/// connect, retrying for up to 30 s (a burst of hundreds of connects may
+/// overflow the listen backlog for a moment)
+fn open_retry(addr: SocketAddr) -> Option<Conn> {
+    let t0 = Instant::now();
+    loop {
+        match Conn::open(addr) {
+            Ok(c) => return Some(c),
+            Err(_) if t0.elapsed() < MID => std::thread::sleep(Duration::from_millis(50)),
+            Err(_) => return None,
+        }
+    }
+}
+
+/// soft RLIMIT_NOFILE := min(hard, 65536), if it is lower (as harness/src/bin/c18.rs does)
+fn raise_fd_limit() {
+    #[repr(C)]
+    struct Rlimit {
+        cur: u64,
+        max: u64,
+    }
+    extern "C" {
+        fn getrlimit(resource: i32, rlim: *mut Rlimit) -> i32;
+        fn setrlimit(resource: i32, rlim: *const Rlimit) -> i32;
+    }
+    let mut r = Rlimit { cur: 0, max: 0 };
+    if unsafe { getrlimit(7, &mut r) } == 0 {
+        let want = r.max.min(65536);
+        if r.cur < want {
+            let n = Rlimit { cur: want, max: r.max };
+            unsafe { setrlimit(7, &n) };
+        }
+    }
+}
+fn fd_limit() -> usize {
+    #[repr(C)]
+    struct Rlimit {
+        cur: u64,
+        max: u64,
+    }
+    extern "C" {
+        fn getrlimit(resource: i32, rlim: *mut Rlimit) -> i32;
+    }
+    let mut r = Rlimit { cur: 0, max: 0 };
+    if unsafe { getrlimit(7, &mut r) } != 0 {
+        return 1024;
+    }
+    r.cur as usize
+}
+
 fn run_client_h1(sh: &Shared, addr: SocketAddr, r: &Req, notes: &Mutex<Vec<String>>) {
     let id = r.id;
     let bytes = request("GET", &path_for(r), &[], None);
-    let mut c = match Conn::open(addr) {
-        Ok(c) => c,
-        Err(_) => {
+    let mut c = match open_retry(addr) {
+        Some(c) => c,
+        None => {
             notes.lock().unwrap().push("connect-failed".into());
             sh.push(Ev::NoResp(id));
             return;
@@ -732,8 +781,32 @@ async fn run_client_async(
     match &r.client {
         Client::Cut { .. } => unreachable!(),
         Client::Stay => {
-            let fut = sender.send(&path_for(r));
-            read_and_log_async(sh, fut, id, r.h.big).await;
+            // a stream the server refused (REFUSED_STREAM: not processed at
+            // all, e.g. momentarily over its concurrent-stream limit while
+            // other streams are being reset) is simply sent again
+            let mut tries = 0;
+            loop {
+                let fut = sender.send(&path_for(r));
+                match tokio::time::timeout(LONG, fut).await {
+                    Ok(Err(e)) if tries < 400 && format!("{:?}", e).contains("REFUSED_STREAM") => {
+                        tries += 1;
+                        tokio::time::sleep(Duration::from_millis(25)).await;
+                    }
+                    other => {
+                        let fut: RespFut = Box::pin(async move {
+                            match other {
+                                Ok(r) => r,
+                                Err(_) => std::future::pending().await,
+                            }
+                        });
+                        read_and_log_async(sh, fut, id, r.h.big).await;
+                        break;
+                    }
+                }
+            }
+            if tries > 0 {
+                note("h2:refused-stream-retried");
+            }
             drop(sender);
             if let Some(t) = task {
                 t.abort();
@@ -747,14 +820,26 @@ async fn run_client_async(
             leave!(how, fut);
         }
         Client::AfterStart { ticks, how } => {
-            let fut = sender.send(&path_for(r));
+            let mut fut = sender.send(&path_for(r));
             let want = *ticks as usize;
-            let seen = wait_log(sh, MID, |l| {
-                l.contains(&Ev::Start(id))
-                    && (l.iter().filter(|e| **e == Ev::Tick(id)).count() >= want
-                        || l.iter().any(|e| matches!(e, Ev::Finish(q) | Ev::Panic(q) | Ev::Dropped(q) if *q == id)))
-            })
-            .await;
+            // wait for the handler to start and tick - or for the request to
+            // end by itself (answered, refused, connection lost)
+            let seen = tokio::select! {
+                seen = wait_log(sh, MID, |l| {
+                    l.contains(&Ev::Start(id))
+                        && (l.iter().filter(|e| **e == Ev::Tick(id)).count() >= want
+                            || l.iter().any(|e| matches!(e, Ev::Finish(q) | Ev::Panic(q) | Ev::Dropped(q) if *q == id)))
+                }) => seen,
+                r = &mut fut => {
+                    match r {
+                        Ok(_) => note("afterstart:answered-before-leaving"),
+                        Err(e) if format!("{:?}", e).contains("REFUSED_STREAM") => note("h2:refused-stream(leaver)"),
+                        Err(_) => note("afterstart:request-failed"),
+                    }
+                    fut = Box::pin(std::future::pending());
+                    true
+                }
+            };
             if !seen {
                 note("missed:start-not-seen");
             }
@@ -1012,6 +1097,43 @@ fn line_for(sc: &Scenario, out: &Outcome, group: &'static str) -> Line {
             tags.push(what.into());
         }
     }
+    if sc.reqs.len() >= 60 {
+        let left = sc.reqs.iter().filter(|r| !stays(r)).count();
+        tags.push(format!("crowd:{}:{}", tr_s(sc.transport), sc.reqs.len()));
+        tags.push(format!(
+            "crowd-leaving:{}",
+            if left == 0 { "none" } else if left == 1 { "one" } else if left == sc.reqs.len() { "all" }
+            else if left == sc.reqs.len() - 1 { "all-but-one" } else { "some" }
+        ));
+        // how many handlers were in flight at once
+        let (mut cur, mut max) = (0i64, 0i64);
+        for e in &out.trace {
+            match e {
+                Ev::Start(_) => {
+                    cur += 1;
+                    max = max.max(cur);
+                }
+                Ev::Finish(_) | Ev::Panic(_) | Ev::Dropped(_) => cur -= 1,
+                _ => {}
+            }
+        }
+        tags.push(format!(
+            "crowd-max-in-flight:{}",
+            if max as usize >= sc.reqs.len() { "all".to_string() }
+            else if sc.transport == Transport::H2Mux && sc.reqs.len() + 1 > H2_MAX_STREAMS {
+                // hyper admits 200 streams at a time; detached handlers whose
+                // stream was reset run on without holding a stream
+                let orphans = if sc.detached { left } else { 0 };
+                // (the log sees a new stream's start a moment before the drop
+                // of the reset one it replaces: a few over is within the limit)
+                if max as usize <= H2_MAX_STREAMS + orphans + 16 {
+                    format!("h2-stream-limit-respected(about {} at once)", H2_MAX_STREAMS)
+                } else {
+                    format!("h2-stream-limit-exceeded({})", max)
+                }
+            } else { format!("{}-of-{}", max, sc.reqs.len()) }
+        ));
+    }
     for n in &out.notes {
         tags.push(format!("note:{}", n));
     }
@@ -1135,6 +1257,106 @@ fn mixed(rng: &mut Rng, detached: bool, k: usize, with_panic: bool, transport: T
     Scenario { transport, detached, reqs, probe: Some(k as u32 + 1) }
 }
 
+/// How many of a crowd leave mid-handler.
+#[derive(Clone, Copy)]
+enum Prefix {
+    One,
+    Half,
+    AllButOne,
+    All,
+}
+const PREFIXES: [Prefix; 4] = [Prefix::One, Prefix::Half, Prefix::AllButOne, Prefix::All];
+
+/// hyper's HTTP/2 server default SETTINGS_MAX_CONCURRENT_STREAMS
+const H2_MAX_STREAMS: usize = 200;
+
+/// A crowd: k simultaneous requests, each with its handler in flight; the
+/// first `leave` clients disconnect once their handler ticks, the rest stay.
+/// Every handler waits for the harness's release, so all k are in flight at
+/// once - except on one multiplexed HTTP/2 connection with more streams than
+/// the server admits at a time (200): there the handlers run for a fixed time
+/// and the streams beyond the limit start as earlier ones end.
+fn crowd(detached: bool, k: usize, p: Prefix, transport: Transport) -> Scenario {
+    let leave = match p {
+        Prefix::One => 1,
+        Prefix::Half => k / 2,
+        Prefix::AllButOne => k - 1,
+        Prefix::All => k,
+    };
+    let queued = transport == Transport::H2Mux && k + 1 > H2_MAX_STREAMS;
+    let tick = 200;
+    let reqs = (0..k)
+        .map(|i| {
+            let id = i as u32 + 1;
+            if i < leave {
+                Req {
+                    id,
+                    client: Client::AfterStart { ticks: 1, how: How::Drop },
+                    h: if queued { free(8, tick) } else { hold(1, tick) },
+                }
+            } else {
+                Req { id, client: Client::Stay, h: if queued { free(3, tick) } else { hold(1, tick) } }
+            }
+        })
+        .collect();
+    Scenario { transport, detached, reqs, probe: Some(k as u32 + 1) }
+}
+
+fn crowds(opts: &Opts) -> Vec<Scenario> {
+    let mut v = vec![];
+    for (m, detached) in [false, true].into_iter().enumerate() {
+        let h1: &[usize] = if opts.thorough { &[63, 64, 65, 127, 128, 129, 257, 513, 1025] } else { &[63, 64, 65, 127, 128, 129, 257] };
+        for (i, &k) in h1.iter().enumerate() {
+            if opts.thorough && k <= 257 {
+                for p in PREFIXES {
+                    v.push(crowd(detached, k, p, Transport::H1));
+                }
+            } else {
+                v.push(crowd(detached, k, PREFIXES[(i + m) % 4], Transport::H1));
+                if k > 257 {
+                    v.push(crowd(detached, k, PREFIXES[(i + m + 2) % 4], Transport::H1));
+                }
+            }
+        }
+        for (i, &k) in [65usize, 129, 257].iter().enumerate() {
+            if opts.thorough {
+                for p in PREFIXES {
+                    v.push(crowd(detached, k, p, Transport::H2Mux));
+                }
+            } else {
+                v.push(crowd(detached, k, PREFIXES[(i + m + 1) % 4], Transport::H2Mux));
+            }
+        }
+    }
+    v
+}
+
+/// spread the crowd scenarios evenly through the list (the driver evaluates
+/// contiguous slices of it in parallel)
+fn interleave(
+    normal: Vec<(&'static str, Scenario)>,
+    crowd: Vec<Scenario>,
+) -> Vec<(&'static str, Scenario)> {
+    if crowd.is_empty() {
+        return normal;
+    }
+    let step = (normal.len() / crowd.len()).max(1);
+    let mut out = vec![];
+    let mut c = crowd.into_iter();
+    for (i, x) in normal.into_iter().enumerate() {
+        if i % step == 0 {
+            if let Some(s) = c.next() {
+                out.push(("crowd", s));
+            }
+        }
+        out.push(x);
+    }
+    for s in c {
+        out.push(("crowd", s));
+    }
+    out
+}
+
 fn generate(opts: &Opts) -> Vec<(&'static str, Scenario)> {
     let mut rng = Rng::new(opts.seed ^ 0xC16);
     let mut v: Vec<(&'static str, Scenario)> = vec![];
@@ -1178,33 +1400,64 @@ fn generate(opts: &Opts) -> Vec<(&'static str, Scenario)> {
             }
         }
     }
-    v
+    interleave(v, crowds(opts))
 }
 
 fn run_all(list: Vec<(&'static str, Scenario)>, par: usize, out: &mut dyn Write) {
     let n = list.len();
-    let next = AtomicUsize::new(0);
     let results: Mutex<Vec<Option<Outcome>>> = Mutex::new((0..n).map(|_| None).collect());
+    // big scenarios (60 requests and more) go through a pool of their own, so
+    // that they overlap with the small ones; one that would need more file
+    // descriptors than the process may have is skipped (and says so)
+    const BIG_PAR: usize = 3;
+    let limit = fd_limit();
+    let is_big = |i: usize| list[i].1.reqs.len() >= 60;
+    let fits = |i: usize| {
+        let sc = &list[i].1;
+        let per = if sc.transport == Transport::H2Mux { 2 } else { 2 * sc.reqs.len() };
+        (per + 64) * BIG_PAR + 256 <= limit
+    };
+    let big: Vec<usize> = (0..n).filter(|i| is_big(*i) && fits(*i)).collect();
+    let small: Vec<usize> = (0..n).filter(|i| !is_big(*i)).collect();
+    let (nb, ns) = (AtomicUsize::new(0), AtomicUsize::new(0));
+    let work = |idx: &Vec<usize>, next: &AtomicUsize| loop {
+        let k = next.fetch_add(1, Ordering::SeqCst);
+        if k >= idx.len() {
+            break;
+        }
+        let o = run_scenario(&list[idx[k]].1);
+        results.lock().unwrap()[idx[k]] = Some(o);
+    };
+    let work = &work;
     std::thread::scope(|scope| {
-        for _ in 0..par.min(n).max(1) {
-            scope.spawn(|| loop {
-                let i = next.fetch_add(1, Ordering::SeqCst);
-                if i >= n {
-                    break;
-                }
-                let o = run_scenario(&list[i].1);
-                results.lock().unwrap()[i] = Some(o);
-            });
+        for _ in 0..BIG_PAR.min(big.len()) {
+            scope.spawn(|| work(&big, &nb));
+        }
+        for _ in 0..par.min(small.len()).max(1) {
+            scope.spawn(|| work(&small, &ns));
         }
     });
     let results = results.into_inner().unwrap();
     for (i, (g, sc)) in list.iter().enumerate() {
-        let o = results[i].as_ref().expect("scenario result");
-        emit(out, &line_for(sc, o, g));
+        match results[i].as_ref() {
+            Some(o) => emit(out, &line_for(sc, o, g)),
+            None => emit(
+                out,
+                &Line {
+                    group: "skipped",
+                    case: sc.to_json(),
+                    obs: json!({"skipped": "RLIMIT_NOFILE too low for this crowd", "limit": limit}),
+                    coq: format!("(C16 {} [] [])", if sc.detached { "Detached" } else { "CancelOnDisconnect" }),
+                    tags: vec![format!("skipped:K:{}:nofile-limit-{}", sc.reqs.len(), limit)],
+                    nontrivial: false,
+                },
+            ),
+        }
     }
 }
 
 fn main() {
+    raise_fd_limit();
     dsverif::cli::main(|opts, replay, out| {
         let list: Vec<(&'static str, Scenario)> = match replay {
             Some(cases) => cases
